@@ -105,6 +105,28 @@ func rtypeDerived(P *Program, v ssa.Value, depth int) (bool, string) {
 				return false, "parameter " + prm.Name() + ": " + why
 			}
 		}
+		// a result of a module helper: every value it can return there must be derived
+		if ex, isEx := s.(*ssa.Extract); isEx {
+			if call, isCall := ex.Tuple.(*ssa.Call); isCall {
+				if h := call.Call.StaticCallee(); h != nil && P.isModuleFunc(h) && h.Blocks != nil && depth < 4 {
+					good, why, n := true, "", 0
+					for _, r := range returnsOf(h) {
+						rs := resolvedResults(r)
+						if ex.Index >= len(rs) {
+							continue
+						}
+						n++
+						if ok2, w := rtypeDerived(P, rs[ex.Index], depth+1); !ok2 {
+							good, why = false, w
+						}
+					}
+					if n > 0 && good {
+						continue
+					}
+					return false, "result of " + h.Name() + ": " + why
+				}
+			}
+		}
 		return false, "value " + s.String() + " does not come from unpackEFace(reflect.Type).data"
 	}
 	return true, ""
